@@ -4,8 +4,13 @@
 
   * `vas_kernel`: the hand-written `vas` is the kernel extracted from
     `size_bytes_checked_visitor::validate_and_subtract` (C++ integer semantics).
-  * exactness (`runMsg_exact`, `runGroup_exact`): mutual induction over the group
-    tree with the invariant "valid → remaining size + cursor position = n".
+  * exactness (`runMsg_exact`, `runGroup_exact`, for every layout and every
+    `n < 2^64` - `n` is a `std::size_t`): mutual induction over the group tree
+    with the invariant "valid → remaining size + cursor position = n".  `on_data`
+    validates the length prefix and the payload one after the other, so a member
+    that is accepted fits below `n < 2^64` and the cursor advance
+    `sizeof(length) + length` (computed in `std::size_t` by the accessor) did not
+    wrap.
   * work (`runMsg_work`, `runGroup_work`): potential function
     `steps + W * size + (valid ? W : 0)` against `W * zeroEntries`.
   * the access-log theorems are in `Lemmas/CheckedReads.lean`.
@@ -100,15 +105,12 @@ theorem rd_lt (bo : ByteOrder) (buf : List Nat) (h : IsBytes buf) (p w : Nat) : 
   have h2 : 256 ^ (slice buf p w).length ≤ 256 ^ w := Nat.pow_le_pow_right (by decide) (slice_length_le buf p w)
   exact Nat.lt_of_lt_of_le h1 h2
 
-theorem dataSizeBytes_narrow (bo : ByteOrder) (buf : List Nat) (h : IsBytes buf) (p w : Nat) (hw : w ≤ 7) :
-    dataSizeBytes w (rd bo buf p w) = w + rd bo buf p w := by
-  have h1 := rd_lt bo buf h p w
-  have h2 : 256 ^ w ≤ 256 ^ 7 := Nat.pow_le_pow_right (by decide) hw
+/-- the cursor advance `sizeof(length) + length` does not wrap for a member that fits into `n < 2^64` bytes -/
+theorem dataSizeBytes_fits (w len p n : Nat) (hN : n < 2 ^ 64) (h : p + w + len ≤ n) :
+    dataSizeBytes w len = w + len := by
   unfold dataSizeBytes
   apply Nat.mod_eq_of_lt
-  have : (256:Nat) ^ 7 + 7 < 2 ^ 64 := by decide
   omega
-
 
 /-! ### state bookkeeping -/
 
@@ -161,8 +163,8 @@ theorem visitFields_core (start wbl : Nat) (blk : List Access) (fs : List FieldA
       · rw [h3]; cases f.isValue <;> simp [St.readIf, St.read, St.setPtr, St.step]
       · rw [h4]; simp
 
-theorem visitDatas_exact (hb : IsBytes buf) (start wbl : Nat) (blk : List Access) (ds : List DataL)
-    (hw : ∀ d ∈ ds, d.lenSize ≤ 7) (first : Bool) (s : St) (p : Nat)
+theorem visitDatas_exact (hN : n < 2 ^ 64) (start wbl : Nat) (blk : List Access) (ds : List DataL)
+    (first : Bool) (s : St) (p : Nat)
     (hv : s.valid = true) (hp : p = if first then start + wbl else s.ptr) (hs : s.size + p = n) :
     Agree n s (visitDatas bo buf start wbl blk first ds s).1 (parseDs bo buf n ds p) ∧
     (∀ q', parseDs bo buf n ds p = some q' →
@@ -171,61 +173,52 @@ theorem visitDatas_exact (hb : IsBytes buf) (start wbl : Nat) (blk : List Access
   induction ds generalizing first s p with
   | nil => simp [visitDatas, parseDs, Agree, hv, hs]
   | cons d ds ih =>
-    have hd : d.lenSize ≤ 7 := hw d (by simp)
-    have hw' : ∀ d ∈ ds, d.lenSize ≤ 7 := fun x hx => hw x (by simp [hx])
     -- the state after the accessor's optional re-positioning
     obtain ⟨s0, hs0, h0p, h0s, h0v, h0g⟩ :
         ∃ s0 : St, s0 = (if first then (s.readAll blk).setPtr (start + wbl) else s) ∧ s0.ptr = p ∧
           s0.size = s.size ∧ s0.valid = true ∧ s0.gbl = s.gbl := by
       refine ⟨_, rfl, ?_, ?_, ?_, ?_⟩ <;> cases first <;> simp_all [St.readAll, St.setPtr]
     simp only [visitDatas, parseDs, ← hs0, h0p]
-    have hsb := dataSizeBytes_narrow bo buf hb p d.lenSize hd
-    rw [hsb]
-    by_cases hfit : p + d.lenSize + rd bo buf p d.lenSize ≤ n
-    · have hfit1 : p + d.lenSize ≤ n := by omega
-      have hval := validate_fits ((((s0.read .dataLength p d.lenSize).setPtr (p + (d.lenSize + rd bo buf p d.lenSize))).step).read
-          .dataLength p d.lenSize) (d.lenSize + rd bo buf p d.lenSize) p n
-          (by simp [St.read, St.setPtr, St.step, h0v]) (by simp [St.read, St.setPtr, St.step, h0s, hs]) (by omega)
-      obtain ⟨hv2, hs2⟩ := hval
-      simp only [hfit, hfit1, if_true, hv2, Bool.not_true, Bool.false_eq_true, if_false]
-      have := ih hw' false _ (p + d.lenSize + rd bo buf p d.lenSize) hv2
-        (by simp [St.validate, St.read, St.setPtr, St.step]; omega) (by rw [← hs2]; omega)
-      obtain ⟨ha, hptr, hstop⟩ := this
-      refine ⟨?_, ?_, hstop⟩
-      · revert ha
-        cases parseDs bo buf n ds (p + d.lenSize + rd bo buf p d.lenSize) with
-        | none => simp [Agree]
-        | some q' => simp [Agree, St.validate, St.read, St.setPtr, St.step, h0g]
-      · intro q' hq'
-        have := hptr q' hq'
-        rw [this]
-        by_cases hds : ds = []
-        · subst hds
-          simp [parseDs] at hq'
-          simp [St.validate, St.read, St.setPtr, St.step]; omega
-        · simp [hds]
-    · have hbad := validate_short ((((s0.read .dataLength p d.lenSize).setPtr (p + (d.lenSize + rd bo buf p d.lenSize))).step).read
-          .dataLength p d.lenSize) (d.lenSize + rd bo buf p d.lenSize) p n
-          (by simp [St.read, St.setPtr, St.step, h0s, hs]) (by omega)
-      simp only [hbad, Bool.not_false, if_true]
-      have : (if p + d.lenSize ≤ n then (if p + d.lenSize + rd bo buf p d.lenSize ≤ n then
-                parseDs bo buf n ds (p + d.lenSize + rd bo buf p d.lenSize) else none) else none) = none := by
-        simp [hfit]
-      rw [this]
-      simp [Agree, hbad]
+    generalize rd bo buf p d.lenSize = len
+    -- the state the callback starts in: accessor done (prefix read, cursor advanced), callback counted
+    obtain ⟨s1, hs1, h1p, h1s, h1v, h1g⟩ :
+        ∃ s1 : St, s1 = ((s0.read .dataLength p d.lenSize).setPtr (p + dataSizeBytes d.lenSize len)).step ∧
+          s1.ptr = p + dataSizeBytes d.lenSize len ∧ s1.size = s.size ∧ s1.valid = true ∧ s1.gbl = s.gbl := by
+      refine ⟨_, rfl, ?_, ?_, ?_, ?_⟩ <;> simp [St.read, St.setPtr, St.step, h0s, h0v, h0g]
+    rw [← hs1]
+    by_cases hfit1 : p + d.lenSize ≤ n
+    · -- the length prefix fits
+      obtain ⟨hv2, hs2⟩ := validate_fits s1 d.lenSize p n h1v (by rw [h1s]; exact hs) hfit1
+      simp only [hfit1, if_true, hv2, Bool.not_true, Bool.false_eq_true, if_false]
+      by_cases hfit : p + d.lenSize + len ≤ n
+      · -- the payload fits as well: the cursor advance did not wrap
+        have hsb := dataSizeBytes_fits d.lenSize len p n hN hfit
+        obtain ⟨hv3, hs3⟩ := validate_fits ((s1.validate d.lenSize).read .dataLength p d.lenSize) len (p + d.lenSize) n
+          (by simpa [St.read] using hv2) (by simpa [St.read] using hs2) hfit
+        simp only [hfit, if_true, hv3, Bool.not_true, Bool.false_eq_true, if_false]
+        have := ih false _ (p + d.lenSize + len) hv3
+          (by simp [St.validate, St.read, h1p, hsb]; omega) hs3
+        obtain ⟨ha, hptr, hstop⟩ := this
+        refine ⟨?_, ?_, hstop⟩
+        · revert ha
+          cases parseDs bo buf n ds (p + d.lenSize + len) with
+          | none => simp [Agree]
+          | some q' => simp [Agree, St.validate, St.read, h1g]
+        · intro q' hq'
+          have := hptr q' hq'
+          rw [this]
+          by_cases hds : ds = []
+          · subst hds
+            simp [parseDs] at hq'
+            simp [St.validate, St.read, h1p, hsb]; omega
+          · simp [hds]
+      · have hbad := validate_short ((s1.validate d.lenSize).read .dataLength p d.lenSize) len (p + d.lenSize) n
+          (by simpa [St.read] using hs2) hfit
+        simp [hbad, hfit, Agree]
+    · have hbad := validate_short s1 d.lenSize p n (by rw [h1s]; exact hs) hfit1
+      simp [hbad, hfit1, Agree]
 end
 
-
-mutual
-  /-- no `<data>` member anywhere in the tree has a 64-bit length prefix -/
-  def NarrowL : CLevel → Prop
-    | .mk _ _ gs ds => (∀ d ∈ ds, d.lenSize ≤ 7) ∧ NarrowGs gs
-  def NarrowGs : List CGroup → Prop
-    | [] => True
-    | g :: gs => NarrowG g ∧ NarrowGs gs
-  def NarrowG : CGroup → Prop
-    | .mk _ l => NarrowL l
-end
 
 section
 variable (bo : ByteOrder) (buf : List Nat) (n : Nat)
@@ -265,18 +258,17 @@ theorem loopE_exact (body : St → St × Bool) (f : Nat → Option Nat) (bl : Na
 
 
 mutual
-  theorem visitChildren_exact (hb : IsBytes buf) (l : CLevel) (hn : NarrowL l) (start wbl : Nat) (blk : List Access)
+  theorem visitChildren_exact (hN : n < 2 ^ 64) (l : CLevel) (start wbl : Nat) (blk : List Access)
       (s : St) (hv : s.valid = true) (hs : s.size + (start + wbl) = n) :
       Agree n s (visitChildren bo buf none l start wbl blk s).1
         ((parseGs bo buf n (eraseGs l.groups) (start + wbl)).bind (parseDs bo buf n l.datas)) ∧
       (∀ q', (parseGs bo buf n (eraseGs l.groups) (start + wbl)).bind (parseDs bo buf n l.datas) = some q' →
         (l.emptyCtor = false ∨ s.ptr = start + wbl) → (visitChildren bo buf none l start wbl blk s).1.ptr = q') ∧
       (visitChildren bo buf none l start wbl blk s).2 = !(visitChildren bo buf none l start wbl blk s).1.valid := by
-    match l, hn with
-    | .mk bl fs gs ds, hn =>
-      obtain ⟨hnd, hng⟩ := hn
+    match l with
+    | .mk bl fs gs ds =>
       obtain ⟨f1, f2, f3, f4⟩ := visitFields_core start wbl blk fs s
-      have hG := visitGroups_exact hb gs hng start wbl blk true (visitFields start wbl blk fs s) (start + wbl)
+      have hG := visitGroups_exact hN gs start wbl blk true (visitFields start wbl blk fs s) (start + wbl)
         (by rw [f2, hv]) (by simp) (by rw [f1]; exact hs)
       obtain ⟨ga, gp, gstop⟩ := hG
       simp only [visitChildren, CLevel.groups, CLevel.datas, CLevel.emptyCtor]
@@ -290,7 +282,7 @@ mutual
         obtain ⟨gv, gs1, gg⟩ := ga
         have gptr := gp q1 hpg
         simp only [gstop, gv, Bool.not_true, Bool.false_eq_true, if_false, Option.bind_some]
-        have hD := visitDatas_exact bo buf n hb start wbl blk ds hnd gs.isEmpty
+        have hD := visitDatas_exact bo buf n hN start wbl blk ds gs.isEmpty
           (visitGroups bo buf none gs start wbl blk true (visitFields start wbl blk fs s)).1 q1 gv
           (by
             cases gs with
@@ -315,22 +307,21 @@ mutual
             · simp [hfs, hpg]
           · simp [hgs]
         · simp [hds]
-  theorem visitGroups_exact (hb : IsBytes buf) (gs : List CGroup) (hn : NarrowGs gs) (start wbl : Nat)
+  theorem visitGroups_exact (hN : n < 2 ^ 64) (gs : List CGroup) (start wbl : Nat)
       (blk : List Access) (first : Bool) (s : St) (p : Nat)
       (hv : s.valid = true) (hp : p = if first then start + wbl else s.ptr) (hs : s.size + p = n) :
       Agree n s (visitGroups bo buf none gs start wbl blk first s).1 (parseGs bo buf n (eraseGs gs) p) ∧
       (∀ q', parseGs bo buf n (eraseGs gs) p = some q' →
         (visitGroups bo buf none gs start wbl blk first s).1.ptr = if gs = [] then s.ptr else q') ∧
       (visitGroups bo buf none gs start wbl blk first s).2 = !(visitGroups bo buf none gs start wbl blk first s).1.valid := by
-    match gs, hn with
-    | [], _ => simp [visitGroups, eraseGs, parseGs, Agree, hv, hs]
-    | g :: gs, hn =>
-      obtain ⟨hng, hngs⟩ := hn
+    match gs with
+    | [] => simp [visitGroups, eraseGs, parseGs, Agree, hv, hs]
+    | g :: gs =>
       obtain ⟨s0, hs0, h0p, h0s, h0v, h0g⟩ :
           ∃ s0 : St, s0 = (if first then (s.readAll blk).setPtr (start + wbl) else s) ∧ s0.ptr = p ∧
             s0.size = s.size ∧ s0.valid = true ∧ s0.gbl = s.gbl := by
         refine ⟨_, rfl, ?_, ?_, ?_, ?_⟩ <;> cases first <;> simp_all [St.readAll, St.setPtr]
-      have hG := onGroup_exact hb g hng p (s0.setPtr (p + g.dim.size)) (by simp [St.setPtr, h0v])
+      have hG := onGroup_exact hN g p (s0.setPtr (p + g.dim.size)) (by simp [St.setPtr, h0v])
         (by simp [St.setPtr]) (by simp [St.setPtr, h0s, hs])
       obtain ⟨ga, gp, gstop⟩ := hG
       simp only [visitGroups, eraseGs, parseGs, ← hs0, h0p]
@@ -343,7 +334,7 @@ mutual
         rw [hpg] at ga
         obtain ⟨gv, gs1, gg⟩ := ga
         simp only [gstop, gv, Bool.not_true, Bool.false_eq_true, if_false, Option.bind_some]
-        have hR := visitGroups_exact hb gs hngs start wbl blk false
+        have hR := visitGroups_exact hN gs start wbl blk false
           (onGroup bo buf none g p (s0.setPtr (p + g.dim.size))).1 q1 gv (by simp [gp q1 hpg]) gs1
         obtain ⟨ra, rp, rstop⟩ := hR
         refine ⟨agree_trans_gbl ra (by rw [gg]; simp [St.setPtr, h0g]), ?_, rstop⟩
@@ -354,13 +345,13 @@ mutual
           simp only [eraseGs, parseGs, Option.some.injEq] at hq'
           simp [gp q1 hpg, hq']
         · simp [hgs]
-  theorem onGroup_exact (hb : IsBytes buf) (g : CGroup) (hn : NarrowG g) (p : Nat) (s : St)
+  theorem onGroup_exact (hN : n < 2 ^ 64) (g : CGroup) (p : Nat) (s : St)
       (hv : s.valid = true) (hptr : s.ptr = p + g.dim.size) (hs : s.size + p = n) :
       Agree n s (onGroup bo buf none g p s).1 (parseG bo buf n g.erase p) ∧
       (∀ q', parseG bo buf n g.erase p = some q' → (onGroup bo buf none g p s).1.ptr = q') ∧
       (onGroup bo buf none g p s).2 = !(onGroup bo buf none g p s).1.valid := by
-    match g, hn with
-    | .mk dim l, hn =>
+    match g with
+    | .mk dim l =>
       simp only [onGroup, CGroup.erase, parseG]
       by_cases hfit : p + dim.size ≤ n
       · obtain ⟨hv1, hs1⟩ := validate_fits s.step dim.size p n (by simp [St.step, hv]) (by simp [St.step, hs]) hfit
@@ -368,7 +359,7 @@ mutual
         have hL := loopE_exact n (fun t => onEntry bo buf none l (rd bo buf (p + dim.blOff) dim.blSize) t)
           (fun q => parseL bo buf n l.erase q (rd bo buf (p + dim.blOff) dim.blSize))
           (rd bo buf (p + dim.blOff) dim.blSize)
-          (fun t q tv tp tg ts => onEntry_exact hb l hn _ t q tv tp tg ts)
+          (fun t q tv tp tg ts => onEntry_exact hN l _ t q tv tp tg ts)
           (rd bo buf (p + dim.numOff) dim.numSize)
           ((((s.step.validate dim.size).read .dimBlockLength (p + dim.blOff) dim.blSize).setGbl
               (rd bo buf (p + dim.blOff) dim.blSize)).read .dimBlockLength (p + dim.blOff) dim.blSize |>.read
@@ -385,13 +376,13 @@ mutual
         | some q' => rw [ho] at la; exact ⟨la.1, la.2.1, rfl⟩
       · have hbad := validate_short s.step dim.size p n (by simp [St.step, hs]) hfit
         simp [hbad, hfit, Agree]
-  theorem onEntry_exact (hb : IsBytes buf) (l : CLevel) (hn : NarrowL l) (bl : Nat) (s : St) (q : Nat)
+  theorem onEntry_exact (hN : n < 2 ^ 64) (l : CLevel) (bl : Nat) (s : St) (q : Nat)
       (hv : s.valid = true) (hptr : s.ptr = q) (hg : s.gbl = bl) (hs : s.size + q = n) :
       Agree n s (onEntry bo buf none l bl s).1 (parseL bo buf n l.erase q bl) ∧
       (∀ q', parseL bo buf n l.erase q bl = some q' → (onEntry bo buf none l bl s).1.ptr = q') ∧
       (onEntry bo buf none l bl s).2 = !(onEntry bo buf none l bl s).1.valid := by
-    match l, hn with
-    | .mk cbl fs gs ds, hn =>
+    match l with
+    | .mk cbl fs gs ds =>
       obtain ⟨s0, hs0, h0p, h0s, h0v, h0g⟩ :
           ∃ s0 : St, s0 = (if (CLevel.mk cbl fs gs ds).emptyCtor then s.setPtr (s.ptr + bl) else s) ∧
             ((CLevel.mk cbl fs gs ds).emptyCtor = false ∨ s0.ptr = q + bl) ∧
@@ -402,7 +393,7 @@ mutual
       by_cases hfit : q + bl ≤ n
       · obtain ⟨hv1, hs1⟩ := validate_fits s0.step bl q n (by simp [St.step, h0v]) (by simp [St.step, h0s, hs]) hfit
         simp only [noteZero_valid, hv1, Bool.not_true, Bool.false_eq_true, if_false, hfit, if_true, hptr]
-        have hC := visitChildren_exact hb (CLevel.mk cbl fs gs ds) hn q bl []
+        have hC := visitChildren_exact hN (CLevel.mk cbl fs gs ds) q bl []
           ((s0.step.validate bl).noteZero c)
           (by simp [hv1]) (by simp; exact hs1)
         obtain ⟨ca, cp, _⟩ := hC
@@ -440,7 +431,7 @@ theorem finish_reports {s0 s : St} {o : Option Nat} (h : Agree n s0 s o) : Repor
     simp only [Reports, finish, hv, if_true]
     exact ⟨trivial, by omega⟩
 
-theorem runMsg_exact (hb : IsBytes buf) (m : CMsg) (hn : NarrowL m.level) :
+theorem runMsg_exact (hN : n < 2 ^ 64) (m : CMsg) :
     Reports (runMsg bo buf none m n) (parseMsg bo buf n m.hdrSize m.blOff m.blSize m.level.erase) := by
   unfold runMsg parseMsg
   by_cases hh : n < m.hdrSize
@@ -457,12 +448,12 @@ theorem runMsg_exact (hb : IsBytes buf) (m : CMsg) (hn : NarrowL m.level) :
     · obtain ⟨hv2, hs2⟩ := validate_fits (((initial n m.hdrSize).step.validate m.hdrSize).read .hdrBlockLength m.blOff m.blSize)
         (rd bo buf m.blOff m.blSize) m.hdrSize n (by simpa [St.read] using hv1) (by simpa [St.read] using hs1) hfit
       simp only [hv2, Bool.not_true, Bool.false_eq_true, if_false, hfit, if_true]
-      exact finish_reports n (visitChildren_exact bo buf n hb m.level hn m.hdrSize _ _ _ hv2 hs2).1
+      exact finish_reports n (visitChildren_exact bo buf n hN m.level m.hdrSize _ _ _ hv2 hs2).1
     · have hbad := validate_short (((initial n m.hdrSize).step.validate m.hdrSize).read .hdrBlockLength m.blOff m.blSize)
         (rd bo buf m.blOff m.blSize) m.hdrSize n (by simpa [St.read] using hs1) hfit
       simp [hbad, hfit, Reports, finish]
 
-theorem runGroup_exact (hb : IsBytes buf) (g : CGroup) (hn : NarrowG g) :
+theorem runGroup_exact (hN : n < 2 ^ 64) (g : CGroup) :
     Reports (runGroup bo buf none g n) (parseGroup bo buf n g.erase) := by
   unfold runGroup parseGroup
   by_cases hh : n < g.dim.size
@@ -473,7 +464,7 @@ theorem runGroup_exact (hb : IsBytes buf) (g : CGroup) (hn : NarrowG g) :
         simp [CGroup.erase, parseG, this]
     simp [hh, this, Reports, rejected]
   · simp only [hh, if_false]
-    exact finish_reports n (onGroup_exact bo buf n hb g hn 0 (initial n g.dim.size) (by simp [initial])
+    exact finish_reports n (onGroup_exact bo buf n hN g 0 (initial n g.dim.size) (by simp [initial])
       (by simp [initial]) (by simp [initial])).1
 end
 
@@ -576,14 +567,21 @@ theorem visitDatas_work (W start wbl : Nat) (blk : List Access) (first : Bool) (
       · exact paid_refl W s
       · exact paid_trans (readAll_paid W _ blk) (setPtr_paid W _ _)
     generalize (if first then (s.readAll blk).setPtr (start + wbl) else s) = s0 at h0 ⊢
-    generalize dataSizeBytes d.lenSize (rd bo buf s0.ptr d.lenSize) = sb
-    have h1 : Paid W 1 s0 (((((s0.read .dataLength s0.ptr d.lenSize).setPtr (s0.ptr + sb)).step).read .dataLength s0.ptr
-        d.lenSize).validate sb) :=
-      paid_trans (paid_trans (paid_trans (paid_trans (read_paid W _ _ _ _) (setPtr_paid W _ _)) (step_paid W _))
-        (read_paid W _ _ _ _)) (validate_paid W _ _)
+    generalize rd bo buf s0.ptr d.lenSize = len
+    generalize dataSizeBytes d.lenSize len = sb
+    -- accessor, the callback itself, validation of the prefix
+    have h1 : Paid W 1 s0 ((((s0.read .dataLength s0.ptr d.lenSize).setPtr (s0.ptr + sb)).step).validate d.lenSize) :=
+      paid_trans (paid_trans (paid_trans (read_paid W _ _ _ _) (setPtr_paid W _ _)) (step_paid W _)) (validate_paid W _ _)
+    -- `d.size()` and validation of the payload
+    have h2 : Paid W 0 ((((s0.read .dataLength s0.ptr d.lenSize).setPtr (s0.ptr + sb)).step).validate d.lenSize)
+        ((((((s0.read .dataLength s0.ptr d.lenSize).setPtr (s0.ptr + sb)).step).validate d.lenSize).read .dataLength s0.ptr
+          d.lenSize).validate len) :=
+      paid_trans (read_paid W _ _ _ _) (validate_paid W _ _)
     split
     · exact paid_mono (paid_trans h0 h1) (by omega)
-    · exact paid_mono (paid_trans (paid_trans h0 h1) (ih false _)) (by omega)
+    · split
+      · exact paid_mono (paid_trans (paid_trans h0 h1) h2) (by omega)
+      · exact paid_mono (paid_trans (paid_trans (paid_trans h0 h1) h2) (ih false _)) (by omega)
 
 
 theorem loopE_work (W : Nat) (body : St → St × Bool)
